@@ -91,6 +91,8 @@ def local_aliases(fn: ast.AST) -> dict[str, ast.AST]:
         return False
 
     def attrs_stable(k, chain_attrs):
+        if chain_attrs & VOLATILE_ATTRS:
+            return False        # a field that a transport callback rebinds: any call in between may have replaced it (see the last clause)
         for a_ in chain_attrs:
             for ln, st in attr_stores.get(a_, []):
                 if st is defstmt.get(k):
@@ -640,6 +642,10 @@ def deref_facts(e, skip=("self", "cls")) -> list[tuple[str, bool]]:
 
 
 SAME = "__same__"
+# attributes that are *rebound* (assigned a new object) by the methods of a protocol class - callbacks the event loop's transport invokes
+# synchronously from inside calls such as `transport.write()`.  A local bound to such a field is not an alias of it across a call.
+# Filled by core.resolve_aliases from the tree under analysis.
+VOLATILE_ATTRS: set = set()
 
 
 @lru_cache(maxsize=None)
